@@ -155,8 +155,15 @@ func sign(ad *schema.Advertisement, tc *tcase, kt string, nested bool) error {
 	if !tc.Shape.HasExt {
 		return ad.Sign(sk)
 	}
+	// SignWithExtendedProviders signs every entry and then refuses a list that does not name the advertisement's provider: for
+	// such a list (the cases "main provider not listed") the refusal is expected and the signatures made so far are kept --
+	// whatever the wording of the error
+	listsMain := false
+	for _, e := range ad.ExtendedProvider.Providers {
+		listsMain = listsMain || e.ID == ad.Provider
+	}
 	ignoreMissingMain := func(err error) error {
-		if err != nil && err.Error() == "extended providers must contain provider from the encapsulating advertisement" {
+		if err != nil && !listsMain && len(ad.ExtendedProvider.Providers) > 0 {
 			return nil
 		}
 		return err
